@@ -36,9 +36,11 @@ NAME_OK = ["'a'", "'b'", "'c'", "'d'", "'e-1'", "'_f'", "'G9'", "'-h'"]
 NAME_BAD = ["''", "'a.b'", "'a b'", "'a/b'", "'a:b'", "'é'", "'x\\n'", "' a'"]
 ILL = ["None", "5", "1.5", "True", "b'x'", "('a',)", "['a', 1]", "{'k': 1}", "[['a']]", "object()"]
 ARGS_OK = ["[]", "['a', 1, True, 0.5]", "[1]", "['x y']", "[THREADS]"]
-ARGS_TASKBAD = ["[None]", "[[1]]", "[{'a': 1}]", "['a', ('b',)]"]
+ARGS_TASKBAD = ["[None]", "[[1]]", "[{'a': 1}]", "['a', ('b',)]", "[1, 2j]", "[__import__('decimal').Decimal('1.5')]",
+                "['a', __import__('fractions').Fraction(1, 3)]", "[b'x']"]
 OPTS_OK = ["{}", "{'k': 'v'}", "{'threads': 3, 'flag': True, 'f': 0.25}"]
-OPTS_TASKBAD = ["{1: 'x'}", "{'k': None}", "{'k': [1]}", "{('a',): 1}"]
+OPTS_TASKBAD = ["{1: 'x'}", "{'k': None}", "{'k': [1]}", "{('a',): 1}", "{'k': 1 + 2j}", "{'k': __import__('fractions').Fraction(1, 3)}",
+                "{'k': __import__('decimal').Decimal('2')}"]
 SCHEMA = {
     "run_command": {"name": ("str", True), "run": ("str", True), "parallelizable": ("bool", False),
                     "args": ("list", False), "options": ("dict", False), "deps": ("liststr", False)},
